@@ -12,6 +12,8 @@ import suite_afm
 import suite_m
 import suite_h
 import suite_env
+import suite_uvl
+import suite_export
 
 TRUSTED_BASE = [
     "Coq 8.16.1 kernel; vm_compute for Examples / refuted witnesses; no native_compute",
@@ -186,6 +188,84 @@ PROPS = {
         assumptions=["random.randint(a,b) answers within [a,b] (premise randint_ok_pos of C19_gen_value; the recorded draws are "
                      "replayed, so a violation would show as a value outside the domain in the oracle)"],
     ),
+    "C09": dict(
+        props="Props/C09.v", tables=["core", "fide", "afm", "glencoe", "json"],
+        suites=[suite_xml.run_fide_third_party, suite_xml.run_fama, suite_afm.run_third_party,
+                suite_glencoe.run_third_party],
+        rule=("suites R-fide-3p / R-fama / R-afm-3p / R-glencoe-3p: documents produced by independent reference emitters "
+              "written from the format definitions (FeatureIDE: graphics / description elements, mandatory=\"false\", "
+              "attribute order, n-ary conj/disj, constraints section absent; FaMa: tag letter case, cardinality position, "
+              "binary vs set relations, relation names; AFM: attribute / constraint sections absent, redundant parentheses, AND under "
+              "OR without parentheses, plus documents with syntax errors that must raise; Glencoe: n-ary terms, extra keys) for random reference models, read by the implementation's readers and by the reader "
+              "models (pointer-annotated comparison); the shipped Betty / FaMa corpus files are read by both and checked "
+              "against statistics computed independently from the XML (feature count, relation kinds, constraint kinds). "
+              "oracle: the model read = the reference model the document was emitted from (tree, kinds, cardinalities, "
+              "abstract flags, attributes, constraints by truth table)"),
+        assumptions=["the reference emitters are the harness's reading of the four format definitions (Python); the FaMa one is "
+                     "also written in Gallina (Format/Ref.v) and C09_fama_denotes is proved for every choice it makes",
+                     "AFM: the afmparser ANTLR parser is external; the reader model consumes its parse tree"],
+        trusted=["external: xml.etree.ElementTree, json, afmparser 1.0.3 + antlr4 runtime"],
+    ),
+    "C01": dict(
+        props="Props/C01.v", tables=["core", "uvl"],
+        suites=[suite_uvl.run],
+        rule=("suites W-uvl (bytes of UVLWriter vs [uvl_write]), P-uvl (the real uvlparser parse tree of the written file, "
+              "converted to the model's syntax-tree type, vs [cst_of_fm]: validates the parser premise of the theorems) and "
+              "R-uvl (UVLReader on the file vs [uvl_read_cst] of the parse tree, pointer-annotated); inputs: random models of "
+              "the UVL fragment (all relation kinds, group and feature cardinalities, typed features, attributes with "
+              "bool/int/float/string values, names needing quotes, constraints over the logical operators). oracle: the model "
+              "read back is structurally identical up to constraint names and logically equivalent constraints (truth table), "
+              "4 cycles with byte-identical text"),
+        assumptions=["the uvlparser ANTLR parser inverts the rendering of the writer's syntax tree (premise of C01_roundtrip, "
+                     "validated by P-uvl on every case)"],
+        trusted=["external: uvlparser 2.x + antlr4 runtime; harness conversion of the ANTLR tree (suite_uvl.parse_uvl)"],
+    ),
+    "C04": dict(
+        props="Props/C04.v", tables=["core", "uvl"],
+        suites=[suite_uvl.run_c04],
+        rule=("suites R-uvl-emitter (documents written by an independent reference emitter exercising the language's "
+              "syntactic freedom: quoting of plain names, redundant parentheses, end-of-line comments, several children under one "
+              "group keyword, explicit Boolean, namespace / include / imports headers) read by UVLReader and "
+              "by [uvl_read_cst] on the real parse tree; oracle: the model read = the reference model the document was emitted "
+              "from. suite P-uvl-invalid: documents made invalid by one defect (unbalanced bracket, stray operator, misspelt section keyword, "
+              "group keyword with children at the same level, stray '|') must raise a library error and never return a model"),
+        assumptions=["which texts the external parser rejects is sampled, not proved (negative half PARTIAL)"],
+        trusted=["external: uvlparser + antlr4 runtime; harness conversion of the ANTLR tree"],
+    ),
+    "C02": dict(
+        props="Props/C02.v", tables=["core", "json", "glencoe", "fide", "uvl", "afm"],
+        suites=[suite_json.run, suite_glencoe.run, suite_xml.run_fide, suite_xml.run_fama, suite_uvl.run, suite_afm.run,
+                suite_glencoe.run_third_party, suite_xml.run_fide_third_party],
+        suite_prefixes=["R-"], clause_prefixes=["graph:"],
+        rule=("the reader suites of C01/C05/C06/C07/C08/C09 (R-json, R-glencoe, R-fide, R-fama, R-uvl, R-afm, R-*-3p): every "
+              "model a reader returns is dumped WITH its back pointers (parent of every feature, parent of every relation, "
+              "owner of every attribute, as paths) and compared with the pointer-annotated reader model; oracle graph_wf walks "
+              "the returned object graph through public attributes only: root parentless, every child's parent is the feature "
+              "holding the relation, relation parent, attribute owner, every feature reachable once, FeatureIDE relations "
+              "non-empty, constraint ASTs with the operands their operator needs"),
+        assumptions=["UVL / AFM: the reader model consumes the real parser's tree (converted by the harness)"],
+        trusted=["external: json, ElementTree, uvlparser, afmparser"],
+    ),
+    "C10": dict(
+        props="Props/C10.v", tables=["core"],
+        suites=[suite_export.run_splot, suite_export.run_pl],
+        rule=("suites W-splot / W-pl: bytes of SPLOTWriter / PLWriter vs [render_splot] / [pl_lines]; suites S-splot / S-pl: "
+              "an independent interpreter of each target format (SXFM tree + CNF clauses; pl configuration lines) enumerates "
+              "the configurations the written file admits and compares them with the source model's valid configurations "
+              "(independent enumerator); also compared with the model's [sxfm_sat] / [pl_sat]. inputs: random models with all "
+              "relation kinds the format can express, awkward names, requires/excludes and general constraints"),
+        assumptions=["the SXFM / pl interpreters in the harness are this check's reading of the two formats"],
+    ),
+    "C11": dict(
+        props="Props/C11.v", tables=["core"],
+        suites=[suite_export.run_clafer],
+        rule=("suites W-clafer (bytes of ClaferWriter vs [render_clafer]) and S-clafer (independent interpreter of the "
+              "Clafer subset: group cardinalities xor/or/mux/[a..b], optional marker, constraints in brackets; instances "
+              "enumerated and compared with the source model's valid configurations and with [clafer_sat]); every identifier "
+              "checked against Clafer's identifier syntax"),
+        assumptions=["the Clafer-subset interpreter in the harness is this check's reading of the Clafer language"],
+    ),
+
 }
 
 
@@ -201,7 +281,13 @@ def _c18_key(f):
     return None
 
 
-FINDING_KEYS = {"C18": _c18_key}
+def _c10_key(f):
+    if f["clause"].startswith("xe:"):
+        return "splot-xor-equivalence-via-core-cnf"
+    return None
+
+
+FINDING_KEYS = {"C18": _c18_key, "C10": _c10_key}
 
 
 def replay(ctx, info, path):
